@@ -1,7 +1,713 @@
-//! C09 — harness not built yet.
+//! C09 — modes A and B refine mode C with exactly the dictionary's split units.
+//!
+//! Generated system + user dictionaries with A/B split declarations (system->system, user->system, user->user; id and
+//! inline references; units of 1..4 byte code points; a rewrite.def whose rules change the byte length) are compiled with
+//! the real DictBuilder; texts are tokenised in C, A and B and every C token is split on demand.  The Coq model
+//! (Model/Split.v) recomputes A, B and every split_into from the C path and the property predicates are evaluated on
+//! the implementation's output.
 use crate::common::*;
+use serde_json::{json, Value};
+use std::rc::Rc;
+use sudachi::analysis::stateful_tokenizer::StatefulTokenizer;
+use sudachi::config::ConfigBuilder;
+use sudachi::dic::build::DictBuilder;
+use sudachi::dic::dictionary::JapaneseDictionary;
+use sudachi::dic::storage::{Storage, SudachiDicData};
+use sudachi::dic::DictionaryLoader;
+use sudachi::input_text::InputTextIndex;
+use sudachi::prelude::*;
 
-pub fn run(_args: &Args) {
-    eprintln!("no harness for C09 yet");
-    std::process::exit(2);
+pub type Dict = Rc<JapaneseDictionary>;
+pub const POS: &str = "名詞,普通名詞,一般,*,*,*";
+pub const ATOMS: [&str; 10] = ["a", "b", "é", "あ", "い", "京", "都", "𠮷", "キ", "ロ"];
+pub const REWRITE_DEF: &str = "# replace list: every rule changes the byte length\nq\tあい\nzz\t京\nぁ\ta\n";
+
+#[derive(Clone, Debug)]
+pub struct Word {
+    pub dic: usize, // 0 = system, k = k-th user dictionary (its id once loaded)
+    pub idx: u32,
+    pub key: String,
+    pub cost: i32,
+    pub indexed: bool,
+    pub a: Vec<(usize, u32, bool)>, // (dictionary of the unit, index, written as inline reference)
+    pub b: Vec<(usize, u32, bool)>,
+}
+
+#[derive(Clone, Debug, Default)]
+pub struct Lexica {
+    pub words: Vec<Word>, // all dictionaries
+    pub ndics: usize,
+    pub ill_formed: Option<(usize, u32)>, // a word whose declaration is ill-formed on purpose
+    pub ill_long: bool,                   // ... by a first unit longer than the whole word (else: unit list too short)
+}
+
+impl Lexica {
+    pub fn get(&self, dic: usize, idx: u32) -> &Word {
+        self.words.iter().find(|w| w.dic == dic && w.idx == idx).unwrap()
+    }
+    pub fn raw_wid(dic: usize, idx: u32) -> u32 {
+        ((dic as u32) << 28) | idx
+    }
+    fn reading(w: &Word) -> String {
+        format!("ヨ{}x{}", w.dic, w.idx)
+    }
+    fn unit_text(&self, owner: usize, u: &(usize, u32, bool)) -> String {
+        let w = self.get(u.0, u.1);
+        if u.2 {
+            format!("{},{},{}", w.key, POS, Self::reading(w))
+        } else if u.0 == 0 || owner == 0 {
+            format!("{}", u.1)
+        } else {
+            format!("U{}", u.1)
+        }
+    }
+    pub fn csv(&self, dic: usize) -> String {
+        let mut s = String::new();
+        for w in self.words.iter().filter(|w| w.dic == dic) {
+            let units = |us: &Vec<(usize, u32, bool)>| -> String {
+                if us.is_empty() {
+                    "*".to_string()
+                } else {
+                    format!("\"{}\"", us.iter().map(|u| self.unit_text(dic, u)).collect::<Vec<_>>().join("/"))
+                }
+            };
+            let lr = if w.indexed { 0 } else { -1 };
+            let mode = if w.a.is_empty() && w.b.is_empty() { "A" } else { "C" };
+            s.push_str(&format!(
+                "{},{},{},{},{},{},{},{},*,{},{},{},*,*\n",
+                w.key, lr, 0, w.cost, w.key, POS, Self::reading(w), w.key, mode, units(&w.a), units(&w.b)
+            ));
+        }
+        s
+    }
+}
+
+fn visible<'a>(lx: &'a Lexica, dic: usize) -> Vec<&'a Word> {
+    lx.words.iter().filter(|w| w.dic == 0 || w.dic == dic).collect()
+}
+
+/// generate the lexica: system dictionary and 0..2 user dictionaries
+pub fn gen_lexica(rng: &mut Rng, want_ill_formed: bool) -> Lexica {
+    let mut lx = Lexica::default();
+    let nuser = match rng.below(6) {
+        0 => 0,
+        1..=3 => 1,
+        _ => 2,
+    };
+    lx.ndics = 1 + nuser;
+    for dic in 0..=nuser {
+        let mut idx = 0u32;
+        // atoms
+        let natoms = if dic == 0 { 6 + rng.below(5) as usize } else { 1 + rng.below(4) as usize };
+        let mut pool: Vec<&str> = ATOMS.to_vec();
+        for _ in 0..natoms {
+            if pool.is_empty() {
+                break;
+            }
+            let k = rng.below(pool.len() as u64) as usize;
+            let key = pool.remove(k);
+            lx.words.push(Word { dic, idx, key: key.to_string(), cost: 2000 + rng.below(500) as i32, indexed: !rng.chance(1, 6), a: vec![], b: vec![] });
+            idx += 1;
+        }
+        // compounds
+        let ncomp = 3 + rng.below(6) as usize;
+        for _ in 0..ncomp {
+            let vis: Vec<Word> = visible(&lx, dic).into_iter().cloned().collect();
+            let k = 2 + rng.below(2) as usize;
+            let mut parts: Vec<Word> = vec![];
+            for _ in 0..k {
+                // user dictionaries prefer their own words and mix in system words
+                let cands: Vec<&Word> = if dic > 0 && rng.chance(1, 2) { vis.iter().filter(|w| w.dic == dic).collect() } else { vis.iter().collect() };
+                if cands.is_empty() {
+                    continue;
+                }
+                parts.push((*rng.pick(&cands)).clone());
+            }
+            if parts.len() < 2 {
+                continue;
+            }
+            let key: String = parts.iter().map(|p| p.key.as_str()).collect();
+            if key.chars().count() > 9 {
+                continue;
+            }
+            let inline = |rng: &mut Rng| rng.chance(1, 4);
+            let bunits: Vec<(usize, u32, bool)> = parts.iter().map(|p| (p.dic, p.idx, inline(rng))).collect();
+            // A units: parts, each possibly expanded by its own A declaration
+            let mut aunits = vec![];
+            for p in &parts {
+                if p.a.len() >= 2 && rng.chance(2, 3) {
+                    for u in &p.a {
+                        aunits.push((u.0, u.1, inline(rng)));
+                    }
+                } else {
+                    aunits.push((p.dic, p.idx, inline(rng)));
+                }
+            }
+            let (a, b) = match rng.below(8) {
+                0 => (vec![], bunits),
+                1 => (aunits, vec![]),
+                2 => (vec![], vec![]),
+                _ => (aunits, bunits),
+            };
+            let cost = if rng.chance(1, 8) { 9000 } else { 50 + rng.below(300) as i32 };
+            lx.words.push(Word { dic, idx, key, cost, indexed: true, a, b });
+            idx += 1;
+        }
+        // a word with exactly one declared unit: a cheaper homograph pointing at an existing word
+        if rng.chance(1, 3) {
+            let own: Vec<Word> = visible(&lx, dic).into_iter().cloned().collect();
+            let tgt = rng.pick(&own).clone();
+            lx.words.push(Word { dic, idx, key: tgt.key.clone(), cost: 10, indexed: true, a: vec![(tgt.dic, tgt.idx, false)], b: if rng.chance(1, 2) { vec![(tgt.dic, tgt.idx, false)] } else { vec![] } });
+            idx += 1;
+        }
+        let _ = idx;
+    }
+    if want_ill_formed {
+        // malformed stream: drop the last declared unit of a 3+-unit declaration (the last remaining one inherits the
+        // parent's end) or put a unit first whose key is longer than the whole parent
+        let cands: Vec<usize> = (0..lx.words.len()).filter(|&i| lx.words[i].a.len() >= 2).collect();
+        if !cands.is_empty() {
+            let i = *rng.pick(&cands);
+            let parent_len = lx.words[i].key.len();
+            let dic = lx.words[i].dic;
+            let longer: Vec<(usize, u32)> = lx.words.iter().filter(|w| (w.dic == 0 || w.dic == dic) && w.key.len() > parent_len && !(w.dic == dic && w.idx >= lx.words[i].idx)).map(|w| (w.dic, w.idx)).collect();
+            if lx.words[i].a.len() >= 3 && rng.chance(1, 2) {
+                lx.words[i].a.pop();
+                lx.words[i].cost = 5;
+                lx.ill_formed = Some((lx.words[i].dic, lx.words[i].idx));
+            } else if !longer.is_empty() {
+                let l = *rng.pick(&longer);
+                lx.words[i].a[0] = (l.0, l.1, false);
+                lx.words[i].cost = 5;
+                lx.ill_formed = Some((lx.words[i].dic, lx.words[i].idx));
+                lx.ill_long = true;
+            }
+        }
+    }
+    lx
+}
+
+/// resource directory with char.def (the repository's test file) and our rewrite.def
+pub fn prepare_resources(work: &std::path::Path) -> std::path::PathBuf {
+    let dir = work.join("res");
+    std::fs::create_dir_all(&dir).unwrap();
+    let cd = std::fs::read(format!("{}/sudachi/tests/resources/char.def", repo())).expect("char.def of the repository");
+    std::fs::write(dir.join("char.def"), cd).unwrap();
+    std::fs::write(dir.join("rewrite.def"), REWRITE_DEF).unwrap();
+    dir
+}
+
+pub fn config_json(res: &std::path::Path, path_rewrite: &str) -> String {
+    format!(
+        r#"{{"path": "{}", "characterDefinitionFile": "char.def",
+ "inputTextPlugin": [{{"class": "com.worksap.nlp.sudachi.DefaultInputTextPlugin"}}],
+ "oovProviderPlugin": [{{"class": "com.worksap.nlp.sudachi.SimpleOovPlugin", "oovPOS": ["名詞", "普通名詞", "一般", "*", "*", "*"], "leftId": 0, "rightId": 0, "cost": 30000}}],
+ "pathRewritePlugin": [{}]}}"#,
+        res.display(),
+        path_rewrite
+    )
+}
+
+/// compile system + user dictionaries from CSV with the real builder and load them
+pub fn build_dict(sys_csv: &str, user_csvs: &[String], cfg_json: &str) -> Result<JapaneseDictionary, String> {
+    let mut sys = DictBuilder::new_system();
+    sys.read_conn("1 1\n0 0 0\n".as_bytes()).map_err(|e| format!("conn: {}", e))?;
+    sys.read_lexicon(sys_csv.as_bytes()).map_err(|e| format!("system lexicon: {}", e))?;
+    sys.resolve().map_err(|e| format!("system resolve: {}", e))?;
+    let mut sys_bytes = Vec::new();
+    sys.compile(&mut sys_bytes).map_err(|e| format!("system compile: {}", e))?;
+    let sys_copy = sys_bytes.clone();
+    let mut data = SudachiDicData::new(Storage::Owned(sys_bytes));
+    if !user_csvs.is_empty() {
+        let base = DictionaryLoader::read_system_dictionary(&sys_copy).map_err(|e| format!("reload: {}", e))?.to_loaded().ok_or("to_loaded")?;
+        for u in user_csvs {
+            let mut ub = DictBuilder::new_user(&base);
+            ub.read_lexicon(u.as_bytes()).map_err(|e| format!("user lexicon: {}", e))?;
+            ub.resolve().map_err(|e| format!("user resolve: {}", e))?;
+            let mut bytes = Vec::new();
+            ub.compile(&mut bytes).map_err(|e| format!("user compile: {}", e))?;
+            data.add_user(Storage::Owned(bytes));
+        }
+    }
+    let cfg = ConfigBuilder::from_bytes(cfg_json.as_bytes()).map_err(|e| format!("config: {}", e))?.build();
+    JapaneseDictionary::from_cfg_storage(&cfg, data).map_err(|e| format!("load: {}", e))
+}
+
+/// pre-normalisation spellings: (normalised, original)
+const VARIANTS: [(&str, &str); 10] = [("a", "A"), ("a", "Ａ"), ("a", "ぁ"), ("b", "B"), ("b", "Ｂ"), ("é", "É"), ("あい", "q"), ("京", "zz"), ("キロ", "㌔"), ("é", "é")];
+
+pub fn denormalise(rng: &mut Rng, norm: &str, p_num: u64, p_den: u64) -> String {
+    let mut out = String::new();
+    let mut rest = norm;
+    while !rest.is_empty() {
+        let mut done = false;
+        if rng.chance(p_num, p_den) {
+            let cands: Vec<&(&str, &str)> = VARIANTS.iter().filter(|v| rest.starts_with(v.0)).collect();
+            if !cands.is_empty() {
+                let v = rng.pick(&cands);
+                out.push_str(v.1);
+                rest = &rest[v.0.len()..];
+                done = true;
+            }
+        }
+        if !done {
+            let c = rest.chars().next().unwrap();
+            out.push(c);
+            rest = &rest[c.len_utf8()..];
+        }
+    }
+    out
+}
+
+pub fn gen_text(rng: &mut Rng, lx: &Lexica) -> String {
+    let nseg = 1 + rng.below(4);
+    let mut norm = String::new();
+    let comps: Vec<&Word> = lx.words.iter().filter(|w| w.indexed && (!w.a.is_empty() || !w.b.is_empty())).collect();
+    let all: Vec<&Word> = lx.words.iter().collect();
+    for _ in 0..nseg {
+        match rng.below(10) {
+            0..=5 if !comps.is_empty() => norm.push_str(&rng.pick(&comps).key),
+            6..=7 => norm.push_str(&rng.pick(&all).key),
+            8 => norm.push_str(*rng.pick(&["x", "w", "。", "漢", " "])),
+            _ => norm.push_str(*rng.pick(&ATOMS)),
+        }
+    }
+    if rng.chance(1, 3) {
+        norm
+    } else {
+        denormalise(rng, &norm, 1, 3)
+    }
+}
+
+#[derive(Clone, Debug, PartialEq)]
+pub struct Tok {
+    pub wid: u32,
+    pub begin: usize,
+    pub end: usize,
+    pub sb: usize,
+    pub se: usize,
+}
+
+pub fn observe(list: &MorphemeList<Dict>) -> Vec<Tok> {
+    let whole = list.surface();
+    let base = whole.as_ptr() as usize;
+    let mut v = vec![];
+    for m in list.iter() {
+        let s = m.surface();
+        let sb = s.as_ptr() as usize - base;
+        v.push(Tok { wid: m.word_id().as_raw(), begin: m.begin(), end: m.end(), sb, se: sb + s.len() });
+    }
+    v
+}
+
+fn ctok(t: &Tok) -> String {
+    format!("({}, ({}, {}, ({}, {})))", cn(t.wid), cnu(t.begin), cnu(t.end), cnu(t.sb), cnu(t.se))
+}
+fn ctoks(v: &Option<Vec<Tok>>) -> String {
+    copt(v.as_ref().map(|l| clist(l.iter().map(ctok))))
+}
+fn csplit(v: &Option<(bool, Vec<Tok>)>) -> String {
+    copt(v.as_ref().map(|(b, l)| cpair(cbool(*b), &clist(l.iter().map(ctok)))))
+}
+
+pub struct CRun {
+    pub modified: String,
+    pub m2o: Vec<usize>,
+    pub cpath: Vec<(usize, usize, u32)>, // char begin, char end, word id
+    pub ctoks: Vec<Tok>,
+    pub stored: Vec<(Vec<u32>, Vec<u32>)>,
+    pub list: MorphemeList<Dict>,
+}
+
+/// tokenise in mode C with a fresh tokenizer, keep the list and everything needed to express the path in model vocabulary
+pub fn run_c(dict: &Dict, text: &str) -> Result<CRun, String> {
+    let mut tok = StatefulTokenizer::new(dict.clone(), Mode::C);
+    tok.reset().push_str(text);
+    tok.do_tokenize().map_err(|e| format!("{}", e))?;
+    let (modified, m2o) = {
+        let inp = tok.verif_input();
+        let modified = inp.current().to_string();
+        let m2o: Vec<usize> = (0..=modified.len()).map(|i| inp.to_orig(i..i).start).collect();
+        (modified, m2o)
+    };
+    let mut list = MorphemeList::empty(dict.clone());
+    list.collect_results(&mut tok).map_err(|e| format!("{}", e))?;
+    let ctoks = observe(&list);
+    let mut cpath = vec![];
+    let mut stored = vec![];
+    let mut boff = 0usize;
+    for m in list.iter() {
+        let wi = m.get_word_info();
+        let blen = if m.is_oov() { wi.surface().len() } else { wi.head_word_length() };
+        let e = boff + blen;
+        if e > modified.len() || !modified.is_char_boundary(boff) || !modified.is_char_boundary(e) {
+            return Err(format!("cannot express the C path in modified-text coordinates at byte {}", boff));
+        }
+        let cb = modified[..boff].chars().count();
+        let ce = modified[..e].chars().count();
+        cpath.push((cb, ce, m.word_id().as_raw()));
+        stored.push((wi.a_unit_split().iter().map(|w| w.as_raw()).collect(), wi.b_unit_split().iter().map(|w| w.as_raw()).collect()));
+        boff = e;
+    }
+    if boff != modified.len() {
+        return Err(format!("C path covers {} of {} modified bytes", boff, modified.len()));
+    }
+    Ok(CRun { modified, m2o, cpath, ctoks, stored, list })
+}
+
+pub fn run_mode(dict: &Dict, text: &str, mode: Mode) -> Option<Vec<Tok>> {
+    catch(|| {
+        let mut tok = StatefulTokenizer::new(dict.clone(), mode);
+        tok.reset().push_str(text);
+        tok.do_tokenize().expect("tokenisation error");
+        let mut list = MorphemeList::empty(dict.clone());
+        list.collect_results(&mut tok).expect("collect");
+        observe(&list)
+    })
+    .ok()
+}
+
+pub fn run_split(list: &MorphemeList<Dict>, i: usize, mode: Mode) -> Option<(bool, Vec<Tok>)> {
+    catch(|| {
+        if (i + if mode == Mode::A { 0 } else { 1 }) % 2 == 0 {
+            // output list sharing the input of the source list
+            let mut out = list.empty_clone();
+            let b = list.get(i).split_into(mode, &mut out).expect("split_into error");
+            (b, observe(&out))
+        } else {
+            // unrelated output list (split_into must make it point at the source's input); splitting twice into it
+            // must append the same sub-tokens again, since the list is not cleared
+            let mut out = MorphemeList::empty(list.dict().clone());
+            let b = list.get(i).split_into(mode, &mut out).expect("split_into error");
+            let once = observe(&out);
+            let b2 = list.get(i).split_into(mode, &mut out).expect("split_into error");
+            let twice = observe(&out);
+            let mut exp = once.clone();
+            exp.extend(once.iter().cloned());
+            if b2 != b || twice != exp {
+                panic!("second split_into into the same list: {} {:?}, first: {} {:?}", b2, twice, b, once);
+            }
+            (b, once)
+        }
+    })
+    .ok()
+}
+
+/// dictionary view for the model: the words on the path and, transitively, their units
+fn dview(lx: &Lexica, cpath: &[(usize, usize, u32)]) -> (String, Value) {
+    let mut need: Vec<(usize, u32)> = vec![];
+    let mut stack: Vec<(usize, u32)> = cpath.iter().filter(|c| (c.2 >> 28) < 15).map(|c| ((c.2 >> 28) as usize, c.2 & 0x0fff_ffff)).collect();
+    while let Some(x) = stack.pop() {
+        if need.contains(&x) || !lx.words.iter().any(|w| w.dic == x.0 && w.idx == x.1) {
+            continue;
+        }
+        need.push(x);
+        let w = lx.get(x.0, x.1);
+        for u in w.a.iter().chain(w.b.iter()) {
+            stack.push((u.0, u.1));
+        }
+    }
+    need.sort();
+    let raw = |owner: usize, u: &(usize, u32, bool)| -> u32 {
+        // the builder stores 0 for a system word and 1 for "this user dictionary"
+        if u.0 == 0 || owner == 0 {
+            Lexica::raw_wid(0, u.1)
+        } else {
+            Lexica::raw_wid(1, u.1)
+        }
+    };
+    let mut entries = vec![];
+    let mut js = vec![];
+    for x in &need {
+        let w = lx.get(x.0, x.1);
+        let a: Vec<u32> = w.a.iter().map(|u| raw(w.dic, u)).collect();
+        let b: Vec<u32> = w.b.iter().map(|u| raw(w.dic, u)).collect();
+        entries.push(format!(
+            "({}, ({}, ({}, {})))",
+            cn(Lexica::raw_wid(w.dic, w.idx)),
+            ctext(&w.key),
+            clist(a.iter().map(|x| cn(*x))),
+            clist(b.iter().map(|x| cn(*x)))
+        ));
+        js.push(json!([Lexica::raw_wid(w.dic, w.idx), w.key, a, b]));
+    }
+    (clist(entries), Value::Array(js))
+}
+
+fn rust_oracle(c: &CRun, a: &Option<Vec<Tok>>, b: &Option<Vec<Tok>>, sa: &[Option<(bool, Vec<Tok>)>], sb: &[Option<(bool, Vec<Tok>)>]) -> Option<String> {
+    for (name, ab, sp, sel) in [("A", a, sa, 0usize), ("B", b, sb, 1usize)] {
+        let ab = match ab {
+            Some(x) => x,
+            None => continue,
+        };
+        let mut bounds: Vec<usize> = vec![];
+        for t in ab {
+            bounds.push(t.begin);
+            bounds.push(t.end);
+        }
+        for t in &c.ctoks {
+            if !bounds.contains(&t.begin) || !bounds.contains(&t.end) {
+                return Some(format!("mode {}: boundary of C token {:?} is not a boundary of the {} tokenisation {:?}", name, t, name, ab));
+            }
+        }
+        // C + split_into must reproduce the A/B tokenisation (no word with exactly one unit on the path)
+        let single = c.stored.iter().any(|s| (if sel == 0 { &s.0 } else { &s.1 }).len() == 1);
+        if !single {
+            let mut re = vec![];
+            for (i, t) in c.ctoks.iter().enumerate() {
+                match &sp[i] {
+                    Some((true, l)) => re.extend(l.iter().cloned()),
+                    Some((false, l)) => {
+                        if !l.is_empty() {
+                            return Some(format!("split_into({}) of token {} answered false but wrote {:?}", name, i, l));
+                        }
+                        re.push(t.clone())
+                    }
+                    None => return Some(format!("split_into({}) of token {} panicked although tokenising in mode {} did not", name, i, name)),
+                }
+            }
+            if &re != ab {
+                return Some(format!("mode {}: tokenising directly gives {:?} but C + split_into gives {:?}", name, ab, re));
+            }
+        }
+        for (i, t) in c.ctoks.iter().enumerate() {
+            let units = if sel == 0 { &c.stored[i].0 } else { &c.stored[i].1 };
+            if units.is_empty() && !ab.contains(t) {
+                return Some(format!("mode {}: C token {:?} declares no unit but does not appear unchanged", name, t));
+            }
+            if let Some((flag, subs)) = &sp[i] {
+                if *flag != !units.is_empty() {
+                    return Some(format!("split_into({}) of token {} answered {} for {} declared units", name, i, flag, units.len()));
+                }
+                if *flag && &subs.iter().map(|s| s.wid).collect::<Vec<_>>() != units {
+                    return Some(format!("split_into({}) of token {}: sub-token ids {:?} differ from the declared units {:?}", name, i, subs, units));
+                }
+            }
+        }
+    }
+    None
+}
+
+pub struct CaseIn {
+    pub sys_csv: String,
+    pub user_csvs: Vec<String>,
+    pub text: String,
+}
+
+fn run_case(sink: &mut Sink, lx: &Lexica, dict: &Dict, ci: &CaseIn, ill_formed: bool, verbose: bool) {
+    let desc0 = json!({"kind": "c09", "text": ci.text, "system_csv": ci.sys_csv, "user_csvs": ci.user_csvs, "rewrite_def": REWRITE_DEF, "ill_formed": ill_formed,
+                       "lexica": lx.words.iter().map(|w| json!([w.dic, w.idx, w.key, w.cost, w.indexed, w.a, w.b])).collect::<Vec<_>>()});
+    let c = match catch(|| run_c(dict, &ci.text)) {
+        Ok(Ok(c)) => c,
+        Ok(Err(e)) => {
+            let id = sink.case_rust_only(desc0, false);
+            sink.fail(id, &format!("mode C analysis of {:?} failed: {}", ci.text, e), "");
+            return;
+        }
+        Err(p) => {
+            let id = sink.case_rust_only(desc0, false);
+            sink.fail(id, &format!("mode C analysis of {:?} panicked: {}", ci.text, p), "");
+            return;
+        }
+    };
+    let a = run_mode(dict, &ci.text, Mode::A);
+    let b = run_mode(dict, &ci.text, Mode::B);
+    let sa: Vec<_> = (0..c.ctoks.len()).map(|i| run_split(&c.list, i, Mode::A)).collect();
+    let sb: Vec<_> = (0..c.ctoks.len()).map(|i| run_split(&c.list, i, Mode::B)).collect();
+    if verbose {
+        println!("text      : {:?}\nmodified  : {:?}\nm2o       : {:?}", ci.text, c.modified, c.m2o);
+        println!("C path    : {:?}\nC tokens  : {:?}\nstored    : {:?}", c.cpath, c.ctoks, c.stored);
+        println!("A tokens  : {:?}\nB tokens  : {:?}", a, b);
+        println!("split A   : {:?}\nsplit B   : {:?}", sa, sb);
+    }
+    let (dv, dvj) = dview(lx, &c.cpath);
+    let term = format!(
+        "check_case {} {} {} {} {} {} {} {} {} {}",
+        dv,
+        ctext(&c.modified),
+        clist(c.m2o.iter().map(|x| cnu(*x))),
+        clist(c.cpath.iter().map(|x| format!("({}, {}, {})", cnu(x.0), cnu(x.1), cn(x.2)))),
+        clist(c.ctoks.iter().map(ctok)),
+        clist(c.stored.iter().map(|s| cpair(&clist(s.0.iter().map(|x| cn(*x))), &clist(s.1.iter().map(|x| cn(*x)))))),
+        ctoks(&a),
+        ctoks(&b),
+        clist(sa.iter().map(csplit)),
+        clist(sb.iter().map(csplit))
+    );
+    // histogram
+    let max_units = c.stored.iter().map(|s| s.0.len().max(s.1.len())).max().unwrap_or(0);
+    let nontrivial = max_units >= 2;
+    sink.tag(if nontrivial { "some_token_has_2+_units" } else { "no_token_splits" });
+    if c.stored.iter().any(|s| s.0.len() == 1 || s.1.len() == 1) {
+        sink.tag("token_with_exactly_one_unit");
+    }
+    if c.m2o.iter().enumerate().any(|(i, o)| i != *o) {
+        sink.tag("normalisation_changes_offsets");
+    }
+    if c.modified.len() != ci.text.len() {
+        sink.tag("normalised_length_differs");
+    }
+    for (i, p) in c.cpath.iter().enumerate() {
+        let d = p.2 >> 28;
+        for u in c.stored[i].0.iter().chain(c.stored[i].1.iter()) {
+            let ud = u >> 28;
+            sink.tag(match (d, ud) {
+                (0, 0) => "ref_system->system",
+                (_, 0) => "ref_user->system",
+                _ => "ref_user->user",
+            });
+            if d >= 2 && ud == d {
+                sink.tag("ref_user->user_restamped_to_dic2");
+            }
+        }
+        if d < 15 && d > 0 {
+            sink.tag("user_word_on_path");
+        }
+    }
+    let mut widths = [false; 5];
+    for ch in c.modified.chars() {
+        widths[ch.len_utf8()] = true;
+    }
+    sink.tag(&format!("byte_widths={}", (1..5).filter(|w| widths[*w]).map(|w| w.to_string()).collect::<Vec<_>>().join("")));
+    if a.is_none() || b.is_none() {
+        sink.tag("split_panics(ill-formed declaration)");
+    }
+    if ill_formed {
+        sink.tag("malformed_stream");
+    }
+    let mut desc = desc0;
+    desc["dict_view"] = dvj;
+    let id = sink.case(term, desc, nontrivial);
+    // independent of the model: the unit ids stored with a word are the declared ones, system units as declared and
+    // every other unit in the dictionary the word itself was read from
+    for (i, p) in c.cpath.iter().enumerate() {
+        let (d, w) = ((p.2 >> 28) as usize, p.2 & 0x0fff_ffff);
+        if d >= 15 {
+            continue;
+        }
+        let word = lx.get(d, w);
+        let exp = |us: &Vec<(usize, u32, bool)>| -> Vec<u32> { us.iter().map(|u| Lexica::raw_wid(if u.0 == 0 { 0 } else { d }, u.1)).collect() };
+        if exp(&word.a) != c.stored[i].0 || exp(&word.b) != c.stored[i].1 {
+            sink.fail(id, &format!("word ({}, {}) {:?}: stored units {:?} differ from the declared ones A={:?} B={:?}", d, w, word.key, c.stored[i], exp(&word.a), exp(&word.b)), "");
+            break;
+        }
+    }
+    if !ill_formed {
+        if a.is_none() || b.is_none() || sa.iter().chain(sb.iter()).any(|x| x.is_none()) {
+            sink.fail(id, &format!("splitting panicked on well-formed declarations for {:?}", ci.text), "");
+        } else if let Some(w) = rust_oracle(&c, &a, &b, &sa, &sb) {
+            sink.fail(id, &w, "");
+        }
+    }
+}
+
+fn lexica_from_json(v: &Value) -> Lexica {
+    let mut lx = Lexica::default();
+    let units = |x: &Value| -> Vec<(usize, u32, bool)> { x.as_array().unwrap().iter().map(|u| (u[0].as_u64().unwrap() as usize, u[1].as_u64().unwrap() as u32, u[2].as_bool().unwrap())).collect() };
+    for w in v.as_array().unwrap() {
+        lx.words.push(Word {
+            dic: w[0].as_u64().unwrap() as usize,
+            idx: w[1].as_u64().unwrap() as u32,
+            key: w[2].as_str().unwrap().to_string(),
+            cost: w[3].as_i64().unwrap() as i32,
+            indexed: w[4].as_bool().unwrap(),
+            a: units(&w[5]),
+            b: units(&w[6]),
+        });
+    }
+    lx.ndics = 1 + lx.words.iter().map(|w| w.dic).max().unwrap_or(0);
+    lx
+}
+
+pub fn run(args: &Args) {
+    let mut sink = Sink::new("C09", &args.out, &["Model.Split"], args.seed, &args.tier);
+    sink.shard_size = 100;
+    sink.rule("generated system + 0..2 user dictionaries (atoms of 1/2/3/4-byte code points, compounds declaring A and B units by id, U-id or inline reference: system->system, user->system, user->user; homographs; words with exactly one unit; unindexed unit targets) compiled by DictBuilder and loaded with DefaultInputTextPlugin + a rewrite.def whose rules change byte lengths; texts = 1..4 dictionary words / stray characters, randomly re-spelt in pre-normalisation form (upper case, full width, ㌔, rewrite rules); per text: C, A, B tokenisation and split_into(A/B) of every C token; non-trivial = some C token declares >= 2 units; a separate malformed stream uses ill-formed declarations (unit list too short / first unit longer than the text)");
+    let res = prepare_resources(&args.work);
+    let cfg = config_json(&res, "");
+    if let Some(p) = &args.replay {
+        let v: Value = serde_json::from_str(&std::fs::read_to_string(p).unwrap()).unwrap();
+        let case = &v["case"];
+        let ci = CaseIn {
+            sys_csv: case["system_csv"].as_str().unwrap().to_string(),
+            user_csvs: case["user_csvs"].as_array().unwrap().iter().map(|x| x.as_str().unwrap().to_string()).collect(),
+            text: case["text"].as_str().unwrap().to_string(),
+        };
+        let lx = lexica_from_json(&case["lexica"]);
+        println!("system lexicon:\n{}", ci.sys_csv);
+        for (i, u) in ci.user_csvs.iter().enumerate() {
+            println!("user lexicon {}:\n{}", i + 1, u);
+        }
+        let dict: Dict = Rc::new(build_dict(&ci.sys_csv, &ci.user_csvs, &cfg).expect("dictionary of the replayed case"));
+        run_case(&mut sink, &lx, &dict, &ci, case["ill_formed"].as_bool().unwrap_or(false), true);
+        sink.finish();
+        return;
+    }
+    let mut rng = Rng::new(args.seed);
+    // corpus first: the repository's own split test dictionary
+    {
+        let mut lx = Lexica::default();
+        lx.ndics = 1;
+        lx.words.push(Word { dic: 0, idx: 0, key: "ab".into(), cost: 1000, indexed: true, a: vec![(0, 1, false), (0, 2, false)], b: vec![(0, 1, false), (0, 2, false)] });
+        lx.words.push(Word { dic: 0, idx: 1, key: "a".into(), cost: 1000, indexed: false, a: vec![], b: vec![] });
+        lx.words.push(Word { dic: 0, idx: 2, key: "b".into(), cost: 1000, indexed: false, a: vec![], b: vec![] });
+        let sys_csv = lx.csv(0);
+        let dict: Dict = Rc::new(build_dict(&sys_csv, &[], &cfg).expect("corpus dictionary"));
+        for text in ["ＡＢ", "ab", "AB", "abab", "xＡb。", ""] {
+            let ci = CaseIn { sys_csv: sys_csv.clone(), user_csvs: vec![], text: text.to_string() };
+            run_case(&mut sink, &lx, &dict, &ci, false, false);
+            sink.tag("corpus_split_alpha");
+        }
+    }
+    let ndict = args.n(45, 900);
+    let per = args.n(26, 40);
+    let mut built = 0u64;
+    let mut rejected = 0u64;
+    for d in 0..ndict {
+        let ill = d % 9 == 8;
+        let lx = gen_lexica(&mut rng, ill);
+        let ill = lx.ill_formed.is_some();
+        let sys_csv = lx.csv(0);
+        let user_csvs: Vec<String> = (1..lx.ndics).map(|k| lx.csv(k)).collect();
+        let dict: Dict = match catch(|| build_dict(&sys_csv, &user_csvs, &cfg)) {
+            Ok(Ok(d)) => Rc::new(d),
+            Ok(Err(e)) => {
+                rejected += 1;
+                let id = sink.case_rust_only(json!({"kind": "c09-build", "system_csv": sys_csv, "user_csvs": user_csvs, "error": e}), false);
+                sink.fail(id, &format!("generated dictionary was rejected: {}", e), "");
+                continue;
+            }
+            Err(p) => {
+                rejected += 1;
+                let id = sink.case_rust_only(json!({"kind": "c09-build", "system_csv": sys_csv, "user_csvs": user_csvs}), false);
+                sink.fail(id, &format!("building the generated dictionary panicked: {}", p), "");
+                continue;
+            }
+        };
+        built += 1;
+        for k in 0..per {
+            let text = match lx.ill_formed {
+                // a first unit longer than the text: the word alone (anywhere else the sub-token ranges would be
+                // reversed and the accessors, not the split, would fail)
+                Some((dic, idx)) if lx.ill_long => {
+                    if k >= 3 {
+                        break;
+                    }
+                    let w = lx.get(dic, idx).key.clone();
+                    if k == 0 {
+                        w
+                    } else {
+                        denormalise(&mut rng, &w, 1, 2)
+                    }
+                }
+                Some((dic, idx)) if k % 2 == 0 => format!("{}{}", gen_text(&mut rng, &lx), lx.get(dic, idx).key),
+                _ => gen_text(&mut rng, &lx),
+            };
+            let ci = CaseIn { sys_csv: sys_csv.clone(), user_csvs: user_csvs.clone(), text };
+            run_case(&mut sink, &lx, &dict, &ci, ill, false);
+        }
+    }
+    sink.tag_n("dictionaries_built", built);
+    sink.tag_n("dictionaries_rejected", rejected);
+    sink.finish();
 }
